@@ -14,10 +14,11 @@ func init() {
 	register(&Prop{
 		ID:          "C04",
 		Title:       "With backpressure the stream is an exact, ordered edit script",
-		Explanation: "R04.1 every path of Value.set / Collection.Update / Collection.Delete to a successful return passes exactly one Bus.Send and failing paths pass none. R04.2 the event built by Update is ADD exactly when the old value is absent or the item was created, ADD carries no old value; Delete emits REMOVE with the removed body. R04.3 the ChangeTime of the event is the same value the save stored as the item's change time (so WithWriteTime is honoured and a later seed reports the same instant); Delete's time comes from WriteRequest.updateTime. R04.4 seeds: only when !UpdatesOnly, sorted ascending by id, SeedValue true, LastSeedValue exactly for the last index, ChangeTime the stored change time, kind ADD; Value.Pull's seed carries both flags and the stored time. R04.5 in both forwarding loops an event is skipped only by the include verdict or by a configured equivalence. R04.6 the equivalence compares read-mask-projected values: for Value the last emitted (projected) value with the projected new one. Does NOT decide that the event sequence equals the writer's log for all histories, nor OldValue chaining.",
+		Explanation: "R04.1 every path of Value.set / Collection.Update / Collection.Delete to a successful return passes exactly one Bus.Send and failing paths pass none. R04.2 the event built by Update is ADD exactly when the old value is absent or the item was created, ADD carries no old value; Delete emits REMOVE with the removed body. R04.3 the ChangeTime of the event is the same value the save stored as the item's change time (so WithWriteTime is honoured and a later seed reports the same instant); Delete's time comes from WriteRequest.updateTime. R04.4 seeds: only when !UpdatesOnly, sorted ascending by id, SeedValue true, LastSeedValue exactly for the last index, ChangeTime the stored change time, kind ADD; Value.Pull's seed carries both flags and the stored time. R04.5 in both forwarding loops an event is skipped only by the include verdict or by a configured equivalence. R04.6 the equivalence compares read-mask-projected values: for Value the last emitted (projected) value with the projected new one. R04.18 a single-item subscription ends only on the removal of its own item (shared with R03.7). Does NOT decide that the event sequence equals the writer's log for all histories, nor OldValue chaining.",
 		Assumptions: []string{"Bus.Send delivers each event once to each live listener in order (C10)"},
 		Run:         runC04,
 		Controls: []Control{
+			{Name: "pullid-ends-on-any-removal", File: "pkg/resource/collection.go", Old: "\t\t\tif change.Id != id {\n\t\t\t\tcontinue\n\t\t\t}\n\n\t\t\tif change.ChangeType == types.ChangeType_REMOVE {\n\t\t\t\treturn\n\t\t\t}\n", New: "\t\t\tif change.ChangeType == types.ChangeType_REMOVE {\n\t\t\t\treturn\n\t\t\t}\n\n\t\t\tif change.Id != id {\n\t\t\t\tcontinue\n\t\t\t}\n", Expect: "R04.18"},
 			{Name: "zero-write-time-treated-as-unset", File: "pkg/resource/opt.go", Old: "\tif wr.writeTime != nil {\n\t\treturn *wr.writeTime", New: "\tif wr.writeTime != nil && !wr.writeTime.IsZero() {\n\t\treturn *wr.writeTime", Expect: "R04.16"},
 			{Name: "initial-records-stamped-with-wall-time", File: "pkg/resource/collection.go", Old: "changeTime: conf.clock.Now()}", New: "changeTime: time.Now()}", Expect: "R04.17"},
 			{Name: "value-stores-time-before-computing-it", File: "pkg/resource/value.go", Old: "\t\t\tchangeTime = request.updateTime(r.clock)\n\t\t\tr.changeTime = changeTime\n", New: "\t\t\tr.changeTime = changeTime\n\t\t\tchangeTime = request.updateTime(r.clock)\n", Expect: "this write's time"},
@@ -60,6 +61,16 @@ func runC04(c *an.Ctx) {
 			}
 		}
 		c.Min("R04.10", 1)
+		// a write to the subscribed item is delivered whatever happened to the other items (same walk, the clause that
+		// only the item's own removal ends the stream)
+		for _, o := range sub.Obls {
+			if o.Rule == "R03.7" && strings.Contains(o.Key, "only the removal of the requested item") {
+				o.Key = "R04.18|" + strings.TrimPrefix(o.Key, "R03.7|")
+				o.Rule = "R04.18"
+				c.Obls = append(c.Obls, o)
+			}
+		}
+		c.Min("R04.18", 1)
 	}
 	r041(c)
 	r042(c)
